@@ -278,7 +278,12 @@ class NArr:
                 return any(f) if name == "any" else all(f)
             return PyFunc(red)
         if name == "flatten":
-            return PyFunc(lambda a, k, n: NArr(_flat(self.data)))
+            def flatten(a, k, n):
+                order = a[0] if a else k.get("order", "C")
+                if order in ("F", "f") and len(self.shape) == 2:
+                    return NArr([x for col in zip(*self.data) for x in col])
+                return NArr(_flat(self.data))
+            return PyFunc(flatten)
         if name == "nonzero":
             return PyFunc(lambda a, k, n: nonzero(self))
         if name == "max":
@@ -360,6 +365,9 @@ def hook(interp, name, args, kwargs, node):
     if name in ("numpy.ones", "numpy.zeros") and len(args) >= 1 and \
             isinstance(a0, (int, Fraction)):
         return NArr([1 if name == "numpy.ones" else 0] * int(a0))
+    if name == "numpy.count_nonzero" and isinstance(a0, NArr) and \
+            len(args) == 1 and not kwargs:
+        return sum(1 for v in _flat(a0.data) if v)
     if name == "numpy.max" and isinstance(a0, NArr) and len(args) == 1:
         return max(_flat(a0.data))
     if name == "numpy.min" and isinstance(a0, NArr) and len(args) == 1:
